@@ -11,7 +11,8 @@ Record Num : Type := mkNum {
   neg  : T -> T;  nabs : T -> T;  nsqrt : T -> T;  nexp : T -> T;  nln : T -> T;
   npow : T -> T -> T;                 (* x ^ y for x > 0 (and 0 ^ y = 0 for y > 0) *)
   leb  : T -> T -> bool;  ltb : T -> T -> bool;  eqb : T -> T -> bool;
-  of_Z : Z -> T
+  of_Z : Z -> T;
+  ntrunc : T -> Z                    (* truncation toward zero, as Python's int(x) *)
 }.
 
 Declare Scope num_scope.
@@ -36,8 +37,11 @@ Definition Reqb (a b : R) : bool := if Req_EM_T a b then true else false.
 Definition Rpow (x y : R) : R :=
   if Req_EM_T y 0 then 1%R else if Rlt_dec 0 x then Rpower x y else 0%R.
 
+(* truncation toward zero *)
+Definition Rtrunc (x : R) : Z := if Rle_dec 0 x then Int_part x else (- Int_part (- x))%Z.
+
 Definition RNum : Num :=
-  mkNum 0%R 1%R Rplus Rminus Rmult Rdiv Ropp Rabs sqrt exp ln Rpow Rleb Rltb Reqb IZR.
+  mkNum 0%R 1%R Rplus Rminus Rmult Rdiv Ropp Rabs sqrt exp ln Rpow Rleb Rltb Reqb IZR Rtrunc.
 
 Lemma Rleb_true a b : Rleb a b = true <-> (a <= b)%R.
 Proof. unfold Rleb; destruct (Rle_dec a b); split; intros; auto; try discriminate; lra. Qed.
